@@ -616,7 +616,7 @@ impl BranchNodeBuilder {
 
             let RawSeparatorsData {
                 start: mut base_separator_bytes_start,
-                byte_len: base_separator_bytes_len,
+                byte_len: mut base_separator_bytes_len,
                 bit_start: mut base_separator_bit_start,
                 bit_len: base_separator_bit_len,
             } = base.view().raw_separators_data(base_index, base_index + 1);
@@ -663,6 +663,15 @@ impl BranchNodeBuilder {
                     &mut base_separator_bytes_start,
                 );
                 bit_len = separator_bit_len;
+                // `bitwise_memcpy` requires the source to be the smallest multiple of 8 bytes
+                // containing all the bits to copy. The length computed above covers the whole
+                // base separator, while the bits to copy start `bit_prefix_len_difference`
+                // bits later and some leading bytes may have just been skipped.
+                base_separator_bytes_len = if bit_len == 0 {
+                    0
+                } else {
+                    ((base_separator_bit_start + bit_len + 7) / 8).next_multiple_of(8)
+                };
             }
 
             bitwise_memcpy(
